@@ -220,6 +220,13 @@ def gen(ctx):
         for op in ("set", "add", "replace", "append", "prepend", "cas"):
             cases.append((cfgs[0] + (7,), {"op": op, "k": "k", "v": b"v", "fl": fl, "nr": rng.choice([True, False]), "cas": 3}))
         cases.append((cfgs[1] + (7,), {"op": "set_many", "items": [("a", b"1"), ("b", b"2")], "fl": fl, "nr": False}))
+    # key collections of every kind, empty ones included: an empty one-shot iterator is truthy, and still means "no keys, send nothing"
+    for how in ("list", "tuple", "gen", "iter", "map", "dictkeys"):
+        for ks in ([], ["a"], ["a", "b", "c"], ["a", "bad key"], ["bad key"]):
+            for cfg in cfgs[:2]:
+                cases.append((cfg, {"op": "get_many", "ks": ks, "as": how}))
+                cases.append((cfg, {"op": "gets_many", "ks": ks, "as": how}))
+                cases.append((cfg, {"op": "delete_many", "ks": ks, "as": how, "nr": len(ks) % 2 == 0}))
     cases.append((cfgs[0], {"op": "get_many", "ks": []}))
     cases.append((cfgs[0], {"op": "delete_many", "ks": [], "nr": False}))
     cases.append((cfgs[0], {"op": "set_many", "items": [], "nr": False}))
